@@ -360,6 +360,11 @@ class ConcRun:
                 self.signatures.add(hashlib.sha1(repr((plan["A"]["kind"], plan["B"]["kind"], baton.trace)).encode()).hexdigest()[:16])
         else:
             self.signatures.add(hashlib.sha1(repr((plan["A"]["kind"], plan["B"]["kind"], var["first"], var["ticks"], var["split_body"], var["ticks2"])).encode()).hexdigest()[:16])
+        if any((out.get(k) is not None and out[k].status == 423) for k in "AB"):
+            # refused as locked: an outcome no sequential execution has, and a legitimate one (the
+            # refused request must have no effect - E-SCHED's business)
+            self.count("locked_refusals")
+            return
         match = [o for (o, r, f) in refs if r == res and f == fin]
         if not match:
             match = self.per_resource_match(plan, res, fin, refs)
